@@ -194,6 +194,18 @@ def run(ctx):
     stats = Counter()
     t0 = time.time()
 
+    if ctx.replay and ctx.replay.get("kind") == "script":
+        rp = ctx.replay
+        sc = S.Script()
+        sc.lines = list(rp["lines"])
+        rc, res, orc, err = run_script(binary, sc, ctx.work, "replay.txt")
+        ctx.cov["evaluations"] = 1
+        for chk in rp.get("checks", []):
+            got = res.get(chk["id"], "")
+            if not re.search(chk["regex"], got):
+                ctx.violation({"kind": "script", "lines": rp["lines"], "checks": rp["checks"], "failed": chk,
+                               "got": got[:400], "what": chk.get("what", "")}, key=rp.get("key"))
+        return
     if ctx.replay and ctx.replay.get("kind") == "ops":
         rp = ctx.replay
         f, err = one_case(binary, ctx.work, rp.get("cfg", CFG), rp["registry"], rp["ops"], rp["mode"], rp["save_every"], "replay")
@@ -209,6 +221,16 @@ def run(ctx):
             stats["corpus_disabled"] += 1
             continue
         ncorp += 1
+        if c.get("kind") == "script":
+            sc = S.Script()
+            sc.lines = list(c["lines"])
+            rc, res, orc, err = run_script(binary, sc, ctx.work, "corpus%d.txt" % ncorp)
+            for chk in c.get("checks", []):
+                got = res.get(chk["id"], "")
+                if not re.search(chk["regex"], got):
+                    ctx.violation({"kind": "script", "lines": c["lines"], "checks": c["checks"], "failed": chk,
+                                   "got": got[:400], "what": chk.get("what", "")}, key=c.get("key"))
+            continue
         f, err = one_case(binary, ctx.work, c.get("cfg", CFG), c["registry"], c["ops"], c["mode"], c["save_every"], "corpus%d" % ncorp)
         if f:
             report(ctx, binary, c.get("cfg", CFG), c["registry"], c["ops"], c["mode"], c["save_every"], f[0], f[1],
